@@ -1,5 +1,6 @@
 import RedisVerif.Lemmas.RedisStr
 import RedisVerif.Lemmas.RedisList
+import RedisVerif.Lemmas.RedisSetHash
 
 /-! Dispatcher lemmas: the per-command lemmas lifted to `exec` / `step`. -/
 namespace RedisVerif.Redis
@@ -54,6 +55,21 @@ theorem inv_exec {s : State} (h : Inv s) (now : Nat) (c : Cmd) : Inv (exec s now
   case ltrim k a b => exact inv_execLTrim h ..
   case rpoplpush a b => exact inv_execLMove h ..
   case lmove a b f t => exact inv_execLMove h ..
+  case sadd k ms => exact inv_execSAdd h ..
+  case srem k ms => exact inv_execSRem h ..
+  case smembers k => rw [execSMembers_ro]; exact h
+  case sismember k m => rw [execSIsMember_ro]; exact h
+  case scard k => rw [execSCard_ro]; exact h
+  case spop k n ch => cases n <;> simp only [exec] <;> first | exact inv_execSPop1 h .. | exact inv_execSPopN h ..
+  case hset k fvs => exact inv_execHSet h ..
+  case hget k f => rw [execHGet_ro]; exact h
+  case hdel k fs => exact inv_execHDel h ..
+  case hgetall k => rw [execHGetAll_ro]; exact h
+  case hkeys k => rw [execHKeys_ro]; exact h
+  case hvals k => rw [execHVals_ro]; exact h
+  case hlen k => rw [execHLen_ro]; exact h
+  case hexists k f => rw [execHExists_ro]; exact h
+  case hincrby k f d => exact inv_execHIncrBy h ..
 
 theorem ttlReply_not_err (s : State) (k : Nat) (f : Nat → Nat) : (ttlReply s k f).isError = false := by
   unfold ttlReply
@@ -112,6 +128,24 @@ theorem exec_err {s : State} {now : Nat} {c : Cmd} (he : (exec s now c).2.isErro
   case ltrim k a b => exact execLTrim_err he
   case rpoplpush a b => exact execLMove_err he
   case lmove a b f t => exact execLMove_err he
+  case sadd k ms => exact execSAdd_err he
+  case srem k ms => exact execSRem_err he
+  case smembers k => exact execSMembers_ro ..
+  case sismember k m => exact execSIsMember_ro ..
+  case scard k => exact execSCard_ro ..
+  case spop k n ch =>
+    cases n <;> simp only [exec] at he ⊢
+    · exact execSPop1_err he
+    · exact execSPopN_err he
+  case hset k fvs => exact execHSet_err he
+  case hget k f => exact execHGet_ro ..
+  case hdel k fs => exact execHDel_err he
+  case hgetall k => exact execHGetAll_ro ..
+  case hkeys k => exact execHKeys_ro ..
+  case hvals k => exact execHVals_ro ..
+  case hlen k => exact execHLen_ro ..
+  case hexists k f => exact execHExists_ro ..
+  case hincrby k f d => exact execHIncrBy_err he
 
 /-- a command classified read-only returns the state it was given -/
 theorem exec_ro {s : State} {now : Nat} {c : Cmd} (hr : isReadOnly c = true) :
@@ -133,6 +167,15 @@ theorem exec_ro {s : State} {now : Nat} {c : Cmd} (hr : isReadOnly c = true) :
   case llen k => exact execLLen_ro ..
   case lindex k i => exact execLIndex_ro ..
   case lrange k a b => exact execLRange_ro ..
+  case smembers k => exact execSMembers_ro ..
+  case sismember k m => exact execSIsMember_ro ..
+  case scard k => exact execSCard_ro ..
+  case hget k f => exact execHGet_ro ..
+  case hgetall k => exact execHGetAll_ro ..
+  case hkeys k => exact execHKeys_ro ..
+  case hvals k => exact execHVals_ro ..
+  case hlen k => exact execHLen_ro ..
+  case hexists k f => exact execHExists_ro ..
   all_goals cases hr
 
 theorem purge_purge_le (s : State) {now t : Nat} (h : now ≤ t) :
